@@ -231,6 +231,7 @@ class History:
         self.objs = {}
         self.events = []
         self.feature_kinds = {}       # feature name -> 'quanti' | 'quali' (for the codecs)
+        self.rankings = (meta or {}).get('rankings') or {}     # ordinal feature -> user ranking (raw values)
         self.notes = {}
 
     # -- helpers ------------------------------------------------------------------------------
@@ -480,6 +481,16 @@ class Encoder:
             self.labels[key] = len(self.labels) + 1
         return self.labels[key]
 
+    def _ranking(self, f):
+        h = self.h
+        raw = None
+        for name, rk in h.rankings.items():
+            if f == name or f.startswith(name + '_'):      # multiclass casted names f_<class>
+                raw = rk
+        if raw is None or h.feature_kinds.get(f) == 'quanti':
+            return []
+        return [self.ccode(f, strform(v)) for v in raw]
+
     def vcode(self, f, v):
         return self.qcode(f, v) if self.h.feature_kinds.get(f) == 'quanti' else self.ccode(f, v)
 
@@ -543,6 +554,7 @@ class Encoder:
             e = {'ev': ev['ev'], 'obj': ev['obj'], 'outcome': ev['outcome'], 'st': st}
             if ev['ev'] == 'fit':
                 e['frame'] = [[self.cell(f, v) for v in (ev['frame_raw'].get(f) or [])] for f in names]
+                e['ranking'] = [self._ranking(f) for f in names]
                 e['attrs_coherent'] = bool(ev['attrs_coherent'])
                 e['dropped_untouched'] = bool(ev['dropped_untouched'])
                 e['inputs_unchanged'] = bool(ev['inputs_unchanged'])
@@ -554,6 +566,7 @@ class Encoder:
                     e['ev'] = 'skip'
                 e['frame'] = [[self.cell(f, v) for v in (fr.get(f) or [])] for f in fnames]
                 e['out'] = ([[self.out(f, v) for v in ev['out_raw'][f]] for f in fnames] if ev.get('out_raw') else [[] for _ in fnames])
+                e['ranking'] = [self._ranking(f) for f in fnames]
                 seen = ev['seen']
                 e['seen'] = [bool(seen)] * len(fnames) if not isinstance(seen, dict) else [bool(seen.get(f)) for f in fnames]
                 e['same_as'] = ev['same_as']
